@@ -194,6 +194,9 @@ func (f *Face) getGlyfPoints(gid tables.GlyphID, computeExtents bool) (ext Glyph
 	}
 	var allPoints []contourPoint
 	f.getPointsForGlyph(gid, 0, &allPoints)
+	if len(allPoints) < phantomCount { // a component could not be resolved
+		return
+	}
 
 	copy(ph[:], allPoints[len(allPoints)-phantomCount:])
 
